@@ -246,6 +246,15 @@ func (c *Conn) Close() error {
 	return nil
 }
 
+// CloseWrite makes the transport look like a TCP or unix connection (which have a
+// half-close); it only logs the call.
+func (c *Conn) CloseWrite() error {
+	c.mu.Lock()
+	defer c.mu.Unlock()
+	c.Events = append(c.Events, Event{Kind: "closewrite", T: time.Now(), After: c.after})
+	return nil
+}
+
 // Pipe returns the two ends of an in-memory duplex connection with unbounded
 // buffering: a Write never blocks (unlike net.Pipe), Read blocks until data,
 // EOF from the peer's Close, or a deadline.
